@@ -80,6 +80,7 @@ type parallelMapActor[In, Out any] struct {
 	upstreamDone bool
 	workers      []*actor.PID // pre-spawned func actor workers
 	nextWorker   int          // round-robin index for worker assignment
+	started      bool         // true once the first downstream demand has triggered the initial pull
 	config       StageConfig
 }
 
@@ -144,7 +145,14 @@ func (a *parallelMapActor[In, Out]) Receive(rctx *actor.ReceiveContext) {
 			}
 			a.workers = append(a.workers, pid)
 		}
-		rctx.Tell(a.upstream, &streamRequest{subID: a.subID, n: int64(a.workersCount)})
+
+	case *streamRequest:
+		// Start pulling on the first downstream demand rather than on stageWire (see
+		// fusedFlowActor): every stage downstream of this one is wired by then.
+		if !a.started {
+			a.started = true
+			rctx.Tell(a.upstream, &streamRequest{subID: a.subID, n: int64(a.workersCount)})
+		}
 
 	case *streamElement:
 		value, ok := msg.value.(In)
